@@ -10,6 +10,7 @@
 //!   zz I64 / uzz U64  -> number                           zigzag / unzigzag
 //!   sc KIND VAL       -> `HEX sz=N rt=..`  one bare field type (no tag): pack, pack_sz, unpack
 //!   scd KIND HEX      -> `ok VAL rest=HEX` | `err CODE`    one bare field type: unpack
+//!   deep N            -> `ok depth=N bytes=B` | `err CODE`  N nested messages of the recursive type Tree (own process)
 //! VAL grammar:  INT | xHEX | ( VAL* ) | #K VAL     (see checks/c15.py)
 #![allow(non_camel_case_types, dead_code)]
 use buffertk::{Packable, Unpackable, stack_pack, v64};
@@ -540,6 +541,119 @@ pstruct!(Wide {
     #[prototk(21, float)] f21: [f32],
 });
 
+
+// schema evolution inside a named enum variant: Evo2 writes a field Evo1 does not know
+#[derive(Clone, Debug, Default, Message, PartialEq)]
+enum Evo1 {
+    #[prototk(1, message)]
+    #[default]
+    Nop,
+    #[prototk(2, message)]
+    Named {
+        #[prototk(1, uint64)]
+        a: u64,
+        #[prototk(3, string)]
+        c: String,
+    },
+}
+#[derive(Clone, Debug, Default, Message, PartialEq)]
+enum Evo2 {
+    #[prototk(1, message)]
+    #[default]
+    Nop,
+    #[prototk(2, message)]
+    Named {
+        #[prototk(1, uint64)]
+        a: u64,
+        #[prototk(2, sint64)]
+        b: i64,
+        #[prototk(3, string)]
+        c: String,
+        #[prototk(4, message)]
+        d: Option<Inner>,
+    },
+}
+impl NotByte for Evo1 {}
+impl NotByte for Evo2 {}
+impl Txt for Evo1 {
+    fn show(&self, o: &mut String) {
+        match self {
+            Evo1::Nop => o.push_str("#0 ( ) "),
+            Evo1::Named { a, c } => { o.push_str("#1 ( "); a.show(o); c.show(o); o.push_str(") ") }
+        }
+    }
+    fn parse(p: &mut P) -> Self {
+        let k = p.next();
+        p.expect("(");
+        let r = match k {
+            "#0" => Evo1::Nop,
+            "#1" => { let a = Txt::parse(p); let c = Txt::parse(p); Evo1::Named { a, c } }
+            x => panic!("HARNESS-PARSE Evo1 {x}"),
+        };
+        p.expect(")");
+        r
+    }
+}
+impl Txt for Evo2 {
+    fn show(&self, o: &mut String) {
+        match self {
+            Evo2::Nop => o.push_str("#0 ( ) "),
+            Evo2::Named { a, b, c, d } => { o.push_str("#1 ( "); a.show(o); b.show(o); c.show(o); d.show(o); o.push_str(") ") }
+        }
+    }
+    fn parse(p: &mut P) -> Self {
+        let k = p.next();
+        p.expect("(");
+        let r = match k {
+            "#0" => Evo2::Nop,
+            "#1" => { let a = Txt::parse(p); let b = Txt::parse(p); let c = Txt::parse(p); let d = Txt::parse(p); Evo2::Named { a, b, c, d } }
+            x => panic!("HARNESS-PARSE Evo2 {x}"),
+        };
+        p.expect(")");
+        r
+    }
+}
+pstruct!(HasEvo1 {
+    #[prototk(1, message)] e: [Evo1],
+    #[prototk(2, uint32)] t: [u32],
+});
+pstruct!(HasEvo2 {
+    #[prototk(1, message)] e: [Evo2],
+    #[prototk(2, uint32)] t: [u32],
+    #[prototk(3, bytes)] x: [Vec<u8>],
+});
+
+// a message type that contains itself: outside the modelled shapes (trees); used by `deep N` only
+pstruct!(Tree {
+    #[prototk(1, message)] kids: [Vec<Tree>],
+    #[prototk(2, uint64)] v: [u64],
+});
+/// N nested length-delimited fields number 1 around `10 01` (a valid encoding of a Tree of depth N)
+fn deep_input(depth: usize) -> Vec<u8> {
+    fn vsz(mut n: usize) -> usize { let mut c = 1; n >>= 7; while n > 0 { n >>= 7; c += 1 } c }
+    let mut lens = Vec::with_capacity(depth + 1);
+    lens.push(2usize);
+    for k in 0..depth {
+        let l = lens[k];
+        lens.push(1 + vsz(l) + l);
+    }
+    let mut out = Vec::with_capacity(lens[depth]);
+    for k in (0..depth).rev() {
+        out.push(0x0a);
+        let mut n = lens[k];
+        loop {
+            let x = (n & 0x7f) as u8;
+            n >>= 7;
+            if n > 0 { out.push(x | 0x80) } else { out.push(x); break }
+        }
+    }
+    out.extend_from_slice(&[0x10, 0x01]);
+    out
+}
+
+// buffertk's own Packable / Unpackable for Result<T, E>, used directly (not as a field)
+type ResTop = Result<Inner, MyErr>;
+
 // --------------------------------------------------------------------------------------- running
 fn code(e: &SError) -> String {
     prototk::error_code(e).unwrap_or("no-code").to_string()
@@ -572,7 +686,9 @@ where
     // Packable::pack into an exactly sized slice must agree with to_vec
     let mut buf2 = vec![0xa5u8; sz];
     v.pack(&mut buf2);
-    let same = if buf2 == bytes { "" } else { " PACK-DIFFERS" };
+    let mut streamed: Vec<u8> = Vec::new();
+    let n = v.stream(&mut streamed).expect("stream to a Vec");
+    let same = if buf2 != bytes { " PACK-DIFFERS" } else if streamed != bytes || n != sz { " STREAM-DIFFERS" } else { "" };
     let rt = dec_line::<T>(&bytes);
     format!("{} sz={}{} rt={}", hex(&bytes), sz, same, rt)
 }
@@ -654,7 +770,7 @@ fn run(line: &str) -> String {
             let (name, arg) = rest.split_once(' ').unwrap_or((rest, ""));
             dispatch!(name, op, arg, [
                 Empty, Ints, Fixeds, Blobs, Blob64, Inner, Nest, Opts, Reps, BigNums, Deep, Boxed, Choice,
-                HasChoice, E2, HasE2, MyErr, Res, ResS, InnerV2, NestV2, Wide
+                HasChoice, E2, HasE2, MyErr, Res, ResS, InnerV2, NestV2, Wide, Evo1, Evo2, HasEvo1, HasEvo2, ResTop
             ])
         }
         "sc" | "scd" => {
@@ -738,6 +854,24 @@ fn run(line: &str) -> String {
         "uzz" => {
             let n: u64 = rest.trim().parse().expect("HARNESS-PARSE u64");
             format!("{}", prototk::unzigzag(n))
+        }
+        "deep" => {
+            // decode a deeply nested encoding of the recursive type Tree (run in its own process by the check:
+            // a stack overflow aborts the process, it cannot be caught)
+            let depth: usize = rest.trim().parse().expect("HARNESS-PARSE usize");
+            let buf = deep_input(depth);
+            let r = match Tree::unpack(&buf) {
+                Ok((t, _)) => {
+                    let mut d = 0usize;
+                    let mut cur = &t;
+                    while let Some(k) = cur.kids.first() { d += 1; cur = k; }
+                    let s = format!("ok depth={} bytes={}", d, buf.len());
+                    std::mem::forget(t); // dropping a very deep tree recurses as well
+                    s
+                }
+                Err(e) => format!("err {} bytes={}", code(&e), buf.len()),
+            };
+            r
         }
         "" => String::new(),
         _ => panic!("HARNESS-PARSE unknown op"),
